@@ -4459,6 +4459,93 @@ def r11_13(prog, rep, rid='R11.13'):
                   "not inputs/in.dat and refs/shared.dat; the task is "
                   "advanced")
 
+    # --- R11.19: copy before change.  The context entries belong to the
+    # caller (a stager's table of strings, or - pilot level staging - the
+    # ru.Url objects the Pilot keeps for all its stage_in / stage_out calls):
+    # what complete_url changes in place is an object it made itself
+    rid3 = 'R11.19'
+    rep.rule(rid3, 'complete_url changes in place (attribute / item store, '
+             'augmented assignment through a name) only objects it has made '
+             'itself: no definition which reaches such a store binds the name '
+             'to the context or to one of its entries without a copying '
+             'constructor in between', minimum=1)
+
+    def shared(e, nid, seen=frozenset()):
+        """the definition (expression) through which the value of e, read when
+        cfg node nid runs, may be the context dict or an object it holds; None
+        if every reaching definition makes a new object"""
+        if isinstance(e, ast.Name):
+            if (e.id, nid) in seen:
+                return None
+            seen = seen | {(e.id, nid)}
+            defs, initial = defs_at(g, e.id, nid)
+            if initial and e.id == ctx:
+                return e
+            for dn, v in defs:
+                if v is not None:
+                    w = shared(v, dn.id, seen)
+                    if w is not None:
+                        return w if isinstance(v, ast.Name) else v
+            return None
+        if isinstance(e, ast.Subscript):
+            return e if shared(e.value, nid, seen) is not None else None
+        if isinstance(e, ast.Call) and isinstance(e.func, ast.Attribute) and \
+                e.func.attr in ('get', 'pop', 'setdefault'):
+            return e if shared(e.func.value, nid, seen) is not None else None
+        if isinstance(e, ast.IfExp):
+            return shared(e.body, nid, seen) or shared(e.orelse, nid, seen)
+        if isinstance(e, ast.BoolOp):
+            for x in e.values:
+                w = shared(x, nid, seen)
+                if w is not None:
+                    return w
+            return None
+        if isinstance(e, ast.NamedExpr):
+            return shared(e.value, nid, seen)
+        # a call (ru.Url(x), copy.deepcopy(x), dict(x), str(x)), an attribute
+        # of an entry (a string), a literal, arithmetic: a new object
+        return None
+
+    n_store = 0
+    for n in _own_nodes(f.node):
+        if not isinstance(n, (ast.Assign, ast.AugAssign)):
+            continue
+        cn = smap.get(id(n))
+        if cn is None:
+            continue
+        tg = n.targets if isinstance(n, ast.Assign) else [n.target]
+        for t in tg:
+            for x in I._flat(t):
+                if not isinstance(x, (ast.Attribute, ast.Subscript)):
+                    continue
+                n_store += 1
+                w = shared(x.value, cn.id)
+                rep.check(w is None, rid3, f,
+                          '`%s` changes an object made in complete_url'
+                          % short(x, 40), construct='in place: %s'
+                          % short(x, 40),
+                          message='complete_url changes `%s` in place (`%s`), '
+                          'and on some path `%s` is still the object the '
+                          'caller keeps in the context (`%s`, no ru.Url(...) '
+                          'copy on that path): the documented "new instance '
+                          '(deep copy)" is not made, the sandbox URL in the '
+                          'context grows by the path of every directive '
+                          'expanded against it'
+                          % (short(x.value, 30), short(n, 60),
+                             short(x.value, 30),
+                             short(w, 50) if w is not None else ''),
+                          loc=f.loc(n),
+                          history='contexts which hold ru.Url objects (pilot '
+                          'level staging: Pilot._loc_ctx / _rem_ctx), two '
+                          'expansions: pilot.stage_in([\'a.dat > pilot:///in/'
+                          'a.dat\', \'b.dat > pilot:///in/b.dat\']) - the '
+                          'second target resolves to <pilot sandbox>/in/a.dat'
+                          '/in/b.dat, and pilot.pilot_sandbox itself has '
+                          'changed')
+    if not n_store:
+        raise AnalysisError('UNRECOGNISED-IDIOM %s: complete_url stores into '
+                            'no object (recogniser blind?)' % rid3)
+
 
 # ------------------------------------------------------------------------------
 # R11.14  the directory an operation creates in front of its effect is a PARENT
@@ -4969,6 +5056,111 @@ def r11_16(prog, rep, rid='R11.16'):
                               else f.loc(call),
                               history='a bulk of three tasks, the first names '
                               'a missing source: all three end FAILED')
+    _r11_20(prog, rep, c05)
+
+
+def _r11_20(prog, rep, c05, rid='R11.20'):
+    """a task whose per-task worker raised is not handed on as staged: between
+    a handler of the worker call and the end of that iteration of the loop
+    over the tasks, the task of the iteration is handed on (advance, or an own
+    method which advances what it is given) in no state but FAILED"""
+    rep.rule(rid, 'on no path from an except clause around the per-task '
+             'worker of a stager to the end of that loop iteration is the '
+             'task handed on in a state other than FAILED / CANCELED (the '
+             'hand-on of a staged task is passed only when the worker '
+             'returned)', minimum=4)
+    final = {prog.const('states.py', 'FAILED'),
+             prog.const('states.py', 'CANCELED')}
+    normal = {'next', 'T', 'F', 'iter', 'done'}
+    for anchor in c05.STAGERS:
+        K = prog.cls(*anchor)
+        for mname in ('work', '_work'):
+            f = K.methods.get(mname)
+            if f is None:
+                continue
+            for g, node, call, hs in c05.per_task_handlers(prog, f):
+                label = '%s::%s.%s' % (anchor[0].rsplit('/', 1)[0], K.name,
+                                       mname)
+                tv = None
+                for x in call.args:
+                    if isinstance(x, ast.Name):
+                        tv = x.id
+                        break
+                if tv is None:
+                    continue
+                body = g.loop_body[node.loops[-1]]
+                for h in hs:
+                    if h.kind != 'handler':
+                        continue
+                    region = g.reachable(h.id, labels=normal,
+                                         no_back=True) & body
+                    # what the handler path writes: a hand-on under a test of
+                    # one of these may be taken only when nothing was caught
+                    wr = {tv}
+                    for x in region:
+                        n = g.nodes[x]
+                        if n.kind != 'stmt' or n.ast is None:
+                            continue
+                        if isinstance(n.ast, (ast.Assign, ast.AugAssign,
+                                              ast.AnnAssign)):
+                            tg = n.ast.targets \
+                                if isinstance(n.ast, ast.Assign) \
+                                else [n.ast.target]
+                            for t in tg:
+                                for y in I._flat(t):
+                                    r = root_name(y)
+                                    if r and r != 'self':
+                                        wr.add(r)
+                        for c in I.stmt_calls(n):
+                            if isinstance(c.func, ast.Attribute) and \
+                                    c.func.attr in I.MUTATING and \
+                                    not is_neutral(c):
+                                r = root_name(c.func.value)
+                                if r and r != 'self':
+                                    wr.add(r)
+                    bad = None
+                    for x in sorted(region):
+                        n = g.nodes[x]
+                        if n.kind != 'stmt':
+                            continue
+                        for c in I.stmt_calls(n):
+                            try:
+                                sts = c05._handoffs(prog, K, f, c, {tv})
+                            except AnalysisError:
+                                sts = set()
+                            sts = {s for s in sts if isinstance(s, str) and
+                                   s not in final}
+                            if not sts:
+                                continue
+                            if any(t in region and
+                                   {y.id for y in walk(g.nodes[t].ast)
+                                    if isinstance(y, ast.Name)} & wr
+                                   for t, _lab in guards(g, x)):
+                                continue       # decided by what was noted
+                            bad = bad or (c, sorted(sts))
+                    rep.check(bad is None, rid, f, '%s: after `%s` caught an '
+                              'exception of `%s` the task is handed on as '
+                              'FAILED only' % (
+                                  label, short(h.ast, 30)
+                                  if h.ast is not None else 'except',
+                                  short(call, 40)),
+                              construct='%s:after-handler' % label,
+                              message='%s: `%s` is reached also after the '
+                              'except clause around `%s` has caught the '
+                              'staging error of that task (it is not inside '
+                              'the try / an else clause, and the handler does '
+                              'not leave the iteration): the task whose '
+                              'directive could not be carried out is handed '
+                              'on as %s, as if its data were in place' % (
+                                  label, short(bad[0], 50) if bad else '',
+                                  short(call, 40),
+                                  '/'.join(bad[1]) if bad else ''),
+                              loc=f.loc(bad[0]) if bad else f.loc(call),
+                              history='a bulk of three tasks, the second with '
+                              'an input directive whose source does not '
+                              'exist: it is advanced to %s and pushed on (and '
+                              'executed without its input); FAILED follows '
+                              'only later' % ('/'.join(bad[1]) if bad else ''))
 
 
 # ------------------------------------------------------------------------------
@@ -5311,7 +5503,12 @@ def run(prog, rep, tier):
         'complete source and target with contexts whose pwd and schema '
         'entries are the values of the Session getter of the documented '
         'sandbox; complete_url does not pass the path component of its '
-        'argument through a call which drops a trailing `/`.')
+        'argument through a call which drops a trailing `/`; complete_url '
+        'changes in place only objects it made itself (no reaching '
+        'definition binds the changed name to the context or one of its '
+        'entries uncopied); between an except clause around the per-task '
+        'worker of a stager and the end of that loop iteration the task is '
+        'handed on as FAILED only.')
     rep.undecided = ('file contents and remote transfers; that the backend '
         'operations do what their names say (cp/mv/ln semantics, SAGA); '
         'exceptions swallowed inside '
@@ -6568,4 +6765,105 @@ SILENT += [
 MUTATIONS += [
     dict(name='R11.17 stage_out no longer completes the target', rules=('R11.17',), edits=[
         (_P, _P_OUT, "            sd['source'] = str(complete_url(sd['source'], self._rem_ctx, self._log))\n")]),
+]
+
+
+# ------------------------------------------------------------------------------
+# round 7: R11.19 (complete_url changes only objects it made itself), R11.20
+# (a task whose per-task worker raised is handed on as FAILED only)
+#
+_SD_COPY = "            ret = ru.Url(context[purl.schema])\n"
+_TI_LOOP = ("                try:\n"
+            "                    self._handle_task(task, actionables)\n"
+            "                    self._advance_tasks([task], pid)\n\n"
+            "                except Exception as e:\n")
+_TI_FAIL = "                    to_fail.append(task)\n"
+_AI_LOOP = ("            try:\n"
+            "                self._handle_task_staging(task, actionables)\n\n"
+            "            except Exception as e:\n"
+            "                self._log.exception('staging error')\n"
+            "                task['exception']        = repr(e)\n"
+            "                task['exception_detail'] = '\\n'.join(ru.get_exception_trace())\n\n"
+            "                self.advance(task, rps.FAILED)\n\n\n"
+            "    # --------------------------------------------------------------------------\n"
+            "    #\n"
+            "    def _handle_task_staging(self, task, actionables):\n")
+
+MUTATIONS += [
+    dict(name='R11.19 seed C11-j2: context entry which is a Url already is not copied', rules=('R11.19',), edits=[
+        (SD, _SD_COPY,
+             "            ret = context[purl.schema]\n"
+             "            if not isinstance(ret, ru.Url):\n"
+             "                ret = ru.Url(ret)\n")]),
+    dict(name='R11.19 context entry fetched with .get() through a second local, copied only when a string', rules=('R11.19',), edits=[
+        (SD, _SD_COPY,
+             "            base = context.get(purl.schema)\n"
+             "            ret  = ru.Url(base) if isinstance(base, str) else base\n")]),
+    dict(name='R11.19 path appended to the context entry itself', rules=('R11.19',), edits=[
+        (SD, _SD_COPY + "\n        if expand:\n" + _SD_APPEND,
+             "            ret = None\n\n        if expand and ret is None:\n"
+             "            context[purl.schema].path += '/%s' % purl.path\n"
+             "            ret = ru.Url(context[purl.schema])\n\n"
+             "        elif expand:\n" + _SD_APPEND)]),
+    dict(name='R11.20 seed C11-j3: hand-on to the agent moved behind the try/except', rules=('R11.20',), edits=[
+        (_TI, "                    self._handle_task(task, actionables)\n                    self._advance_tasks([task], pid)\n",
+              "                    self._handle_task(task, actionables)\n"),
+        (_TI, _TI_FAIL, _TI_FAIL + "\n                # staging is done, push to the agent\n"
+                                   "                self._advance_tasks([task], pid)\n")]),
+    dict(name='R11.20 hand-on to the agent in a finally clause', rules=('R11.20',), edits=[
+        (_TI, "                    self._handle_task(task, actionables)\n                    self._advance_tasks([task], pid)\n",
+              "                    self._handle_task(task, actionables)\n"),
+        (_TI, _TI_FAIL, _TI_FAIL + "\n                finally:\n"
+                                   "                    self._advance_tasks([task], pid)\n")]),
+    dict(name='R11.20 agent input stager: task pushed to the scheduler behind the try/except', rules=('R11.20',), edits=[
+        (_AI, _AI_LOOP, _AI_LOOP.replace(
+            "                self.advance(task, rps.FAILED)\n\n\n",
+            "                self.advance(task, rps.FAILED)\n\n"
+            "            self.advance(task, rps.AGENT_SCHEDULING_PENDING,\n"
+            "                         publish=True, push=True)\n\n\n"))]),
+]
+
+SILENT += [
+    dict(name='copy site: context entry through a local, always copied', edits=[
+        (SD, _SD_COPY,
+             "            base = context[purl.schema]\n"
+             "            ret  = ru.Url(base)\n")]),
+    dict(name='copy site: entry which is a Url already copied with copy.deepcopy', edits=[
+        (SD, _SD_COPY,
+             "            ret = context[purl.schema]\n"
+             "            if isinstance(ret, ru.Url):\n"
+             "                import copy\n"
+             "                ret = copy.deepcopy(ret)\n"
+             "            else:\n"
+             "                ret = ru.Url(ret)\n")]),
+    dict(name='copy site: path built first, stored into the copy by plain assignment', edits=[
+        (SD, "        if expand:\n" + _SD_APPEND,
+             "        if expand:\n"
+             "            new_path = '%s/%s' % (ret.path, purl.path)\n"
+             "            ret.path = new_path\n")]),
+    dict(name='copy site: context entry read again for the debug message only', edits=[
+        (SD, "                log.debug('   expand with %s', context.get(purl.schema))\n",
+             "                entry = context.get(purl.schema)\n"
+             "                log.debug('   expand with %s', entry)\n")]),
+    dict(name='hand-on site: push to the agent in the else clause of the try', edits=[
+        (_TI, "                    self._handle_task(task, actionables)\n                    self._advance_tasks([task], pid)\n",
+              "                    self._handle_task(task, actionables)\n"),
+        (_TI, _TI_FAIL, _TI_FAIL + "\n                else:\n"
+                                   "                    self._advance_tasks([task], pid)\n")]),
+    dict(name='hand-on site: handler leaves the iteration, push behind the try/except', edits=[
+        (_TI, "                    self._handle_task(task, actionables)\n                    self._advance_tasks([task], pid)\n",
+              "                    self._handle_task(task, actionables)\n"),
+        (_TI, _TI_FAIL, _TI_FAIL + "                    continue\n\n"
+                                   "                self._advance_tasks([task], pid)\n")]),
+    dict(name='hand-on site: failure noted in a flag, push behind the try/except under the flag', edits=[
+        (_TI, "                try:\n                    self._handle_task(task, actionables)\n                    self._advance_tasks([task], pid)\n",
+              "                staged = True\n                try:\n                    self._handle_task(task, actionables)\n"),
+        (_TI, _TI_FAIL, _TI_FAIL + "                    staged = False\n\n"
+                                   "                if staged:\n"
+                                   "                    self._advance_tasks([task], pid)\n")]),
+    dict(name='hand-on site: agent input stager fails the task as a one-element bulk, then logs', edits=[
+        (_AI, _AI_LOOP, _AI_LOOP.replace(
+            "                self.advance(task, rps.FAILED)\n",
+            "                self.advance([task], rps.FAILED, publish=True, push=False)\n\n"
+            "            self._log.debug('staging of %s handled', task['uid'])\n"))]),
 ]
